@@ -215,6 +215,10 @@ class Project:
                     )
                 except SyntaxError as e:
                     raise AnalysisError(f"cannot parse {path}: {e}")
+        self.member_log = {}
+        if os.environ.get("TPMSA_NO_NORMALISE") != "1":
+            from . import normalise
+            self.member_log = normalise.inline_new_members({n: m.tree for n, m in self.modules.items()}, normalise.load_shape())
         for name, m in self.modules.items():
             others = set()
             for n2, m2 in self.modules.items():
